@@ -274,7 +274,14 @@ func runHandles(env *Env) {
 	for _, r := range ne.snaps {
 		r.ms.closed = true
 	}
-	// (c) retired exactly once; the collector makes progress on all later snapshots
+	// (c) retired exactly once; the collector makes progress on all later snapshots.
+	// The later snapshots were closed one after the other with nothing else going on:
+	// the last of those Closes must have collected everything, without a forced GC()
+	if later > 0 && ne.lastCloseAlone() {
+		if m := ne.checkQuiescent(false, "after the later snapshots were closed"); m != "" {
+			env.Violate("C08", "later-close-did-not-collect", "every handle is closed and the last Close ran alone, yet: %s", m)
+		}
+	}
 	s.Go("gc", func() { ne.db.GC() })
 	if !env.Finish(s.Run(), "C08") {
 		return
